@@ -332,7 +332,7 @@ StepEv(n) == LET d == Nd(n) IN
     [] d.ty = "func" ->
          /\ heap' = Append(heap, [k |-> "fun", params |-> d.params, body |-> d.body, env |-> env, name |-> d.name, arrow |-> (d.arrow = 1), gen |-> (d.gen = 1)])
          /\ Go(RetV(Fun(Len(heap) + 1))) /\ UNCHANGED <<k, env, out>>
-    [] d.ty = "call" -> Go(Ev(d.f)) /\ Push([f |-> "callF", n |-> n]) /\ Same
+    [] d.ty \in {"call", "new"} -> Go(Ev(d.f)) /\ Push([f |-> "callF", n |-> n]) /\ Same
     [] d.ty = "order" -> Go(Ev(d.a)) /\ Push([f |-> "order"]) /\ Same
     [] d.ty = "yield" -> IF d.a = 0 THEN Go(RetV(U)) /\ Push([f |-> "yield"]) /\ Same ELSE Go(Ev(d.a)) /\ Push([f |-> "yield"]) /\ Same
     [] d.ty = "arrlit" -> IF d.xs = <<>> THEN /\ heap' = Append(heap, [k |-> "arr", e |-> <<>>]) /\ Go(RetV(Ref(Len(heap) + 1))) /\ UNCHANGED <<k, env, out>>
@@ -395,7 +395,9 @@ StepRet == LET c == ctl.c IN
                    heap' = h2 /\ Go(RetV(Ref(Len(h2))))
       ELSE IF f.f = "callret" THEN    \* function boundary
            /\ env' = f.e /\ k' = rest /\ UNCHANGED <<heap, out>>
-           /\ Go(IF c.c = "return" THEN RetV(c.v) ELSE IF c.c \in {"throw", "unmodelled"} THEN Ret(c) ELSE RetV(U))
+           /\ Go(IF c.c \in {"throw", "unmodelled"} THEN Ret(c)
+                 ELSE IF f.nw.t = "ref" THEN (IF c.c = "return" /\ c.v.t \in {"ref", "fun", "err"} THEN RetV(c.v) ELSE RetV(f.nw))
+                 ELSE IF c.c = "return" THEN RetV(c.v) ELSE RetV(U))
       ELSE IF c.c # "normal" THEN
         \* abrupt completion travelling outwards
         CASE f.f \in {"wtest", "wbody"} /\ c.c = "break" /\ Mine(f, c) -> Go(RetV(U)) /\ k' = rest /\ Same
@@ -496,7 +498,7 @@ StepRet == LET c == ctl.c IN
                    ELSE Go(Ev(d.args[1])) /\ k' = <<[f |-> "genarg", g |-> v.a, op |-> GenOpOf(d.key)]>> \o rest /\ Same)
                ELSE IF v.t \in {"fun", "err"} THEN Go(Ret(Abrupt("unmodelled", U, ""))) /\ k' = rest /\ Same
                ELSE IF ~g.ok THEN Go(Ret(Throw(Err("TypeError")))) /\ k' = rest /\ Same
-               ELSE IF d.args = <<>> THEN Go(RetV(v)) /\ k' = <<[f |-> "apply", fv |-> g.v, args |-> <<>>, thisv |-> v]>> \o rest /\ Same
+               ELSE IF d.args = <<>> THEN Go(RetV(v)) /\ k' = <<[f |-> "apply", fv |-> g.v, args |-> <<>>, thisv |-> v, isnew |-> FALSE]>> \o rest /\ Same
                ELSE Go(Ev(d.args[1])) /\ k' = <<[f |-> "callA", n |-> f.n, fv |-> g.v, args |-> <<>>, thisv |-> v]>> \o rest /\ Same
           [] f.f = "forofA" ->
                IF ~(v.t = "ref" /\ heap[v.a].k = "arr") THEN
@@ -572,30 +574,35 @@ StepRet == LET c == ctl.c IN
           [] f.f = "fin" -> Go(Ret(f.pend)) /\ k' = rest /\ Same       \* finally completed normally: resume the pending completion
           [] f.f = "callF" ->
                LET d == Nd(f.n) IN
-               IF d.args = <<>> THEN Go(RetV(v)) /\ k' = <<[f |-> "apply", fv |-> v, args |-> <<>>, thisv |-> U]>> \o rest /\ Same
+               IF d.args = <<>> THEN Go(RetV(v)) /\ k' = <<[f |-> "apply", fv |-> v, args |-> <<>>, thisv |-> U, isnew |-> d.ty = "new"]>> \o rest /\ Same
                ELSE Go(Ev(d.args[1])) /\ k' = <<[f |-> "callA", n |-> f.n, fv |-> v, args |-> <<>>, thisv |-> U]>> \o rest /\ Same
           [] f.f = "callA" ->
                LET d == Nd(f.n) as == Append(f.args, v) IN
-               IF Len(as) = Len(d.args) THEN Go(RetV(v)) /\ k' = <<[f |-> "apply", fv |-> f.fv, args |-> as, thisv |-> f.thisv]>> \o rest /\ Same
+               IF Len(as) = Len(d.args) THEN Go(RetV(v)) /\ k' = <<[f |-> "apply", fv |-> f.fv, args |-> as, thisv |-> f.thisv, isnew |-> d.ty = "new"]>> \o rest /\ Same
                ELSE Go(Ev(d.args[Len(as) + 1])) /\ k' = <<[f EXCEPT !.args = as]>> \o rest /\ Same
           [] f.f = "apply" ->
                IF f.fv.t # "fun" THEN Go(Ret(Throw(Err("TypeError")))) /\ k' = rest /\ Same
+               ELSE IF f.isnew /\ (heap[f.fv.a].gen \/ heap[f.fv.a].arrow) THEN Go(Ret(Throw(Err("TypeError")))) /\ k' = rest /\ Same    \* not a constructor
                ELSE IF heap[f.fv.a].gen THEN
                     /\ heap' = Append(heap, [k |-> "gen", st |-> "start", fn |-> f.fv.a, args |-> f.args, thisv |-> f.thisv, kont |-> <<>>, genv |-> NoEnv])
                     /\ Go(RetV(Ref(Len(heap) + 1))) /\ k' = rest /\ UNCHANGED <<env, out>>
                ELSE LET fn == heap[f.fv.a]
-                        h0 == NewEnv(heap, fn.env)  e == Len(h0)
+                        \* [[Construct]]: a fresh ordinary object is `this`; it is the result unless the body returns an object
+                        hN == IF f.isnew THEN Append(heap, [k |-> "obj", ks |-> <<>>, vs |-> <<>>]) ELSE heap
+                        nw == IF f.isnew THEN Ref(Len(hN)) ELSE U
+                        thisv == IF f.isnew THEN nw ELSE f.thisv
+                        h0 == NewEnv(hN, fn.env)  e == Len(h0)
                         RECURSIVE Bind(_, _)
                         Bind(h, i) == IF i > Len(fn.params) THEN h
                                       ELSE Bind(Declare(h, e, fn.params[i], IF i <= Len(f.args) THEN f.args[i] ELSE U, TRUE, TRUE), i + 1)
                         h1a == Bind(h0, 1)
-                        h1 == IF fn.arrow THEN h1a ELSE Declare(h1a, e, "this", f.thisv, TRUE, FALSE)
+                        h1 == IF fn.arrow THEN h1a ELSE Declare(h1a, e, "this", thisv, TRUE, FALSE)
                         body == Nd(fn.body)
                         h2 == HoistVars(h1, e, VarNamesList(body.xs))
                         h3 == HoistLex(h2, e, body.xs)
                     IN /\ heap' = h3 /\ env' = e /\ UNCHANGED out
-                       /\ IF body.xs = <<>> THEN Go(RetV(U)) /\ k' = <<[f |-> "callret", e |-> env]>> \o rest
-                          ELSE Go(Ev(body.xs[1])) /\ k' = <<[f |-> "list", xs |-> body.xs, i |-> 1], [f |-> "callret", e |-> env]>> \o rest
+                       /\ IF body.xs = <<>> THEN Go(RetV(U)) /\ k' = <<[f |-> "callret", e |-> env, nw |-> nw]>> \o rest
+                          ELSE Go(Ev(body.xs[1])) /\ k' = <<[f |-> "list", xs |-> body.xs, i |-> 1], [f |-> "callret", e |-> env, nw |-> nw]>> \o rest
 
 Next == /\ st = "run" /\ steps < MaxSteps /\ steps' = steps + 1 /\ UNCHANGED pi
         /\ feat' = feat \cup StepFeat
